@@ -134,6 +134,13 @@ static inline int64_t vm_idiv(int64_t a, int64_t b) {
     return a / b;
 }
 
+/* val_compare() cannot express "unordered": a comparison with a NaN operand
+ * is false for <= and >= too (IEEE 754, and what the native backend computes) */
+static inline bool vm_unordered(NanoValue a, NanoValue b) {
+    return (a.tag == TAG_FLOAT && a.as.f64 != a.as.f64) ||
+           (b.tag == TAG_FLOAT && b.as.f64 != b.as.f64);
+}
+
 static inline int64_t vm_imod(int64_t a, int64_t b) {
     if (b == 0 || b == -1) return 0;
     return a % b;
@@ -725,7 +732,7 @@ VmTrap vm_core_execute(VmState *vm) {
         case OP_LE: {
             NanoValue b = stack_pop(vm);
             NanoValue a = stack_pop(vm);
-            stack_push(vm, val_bool(val_compare(a, b) <= 0));
+            stack_push(vm, val_bool(!vm_unordered(a, b) && val_compare(a, b) <= 0));
             vm_release(&vm->heap, a);
             vm_release(&vm->heap, b);
             break;
@@ -743,7 +750,7 @@ VmTrap vm_core_execute(VmState *vm) {
         case OP_GE: {
             NanoValue b = stack_pop(vm);
             NanoValue a = stack_pop(vm);
-            stack_push(vm, val_bool(val_compare(a, b) >= 0));
+            stack_push(vm, val_bool(!vm_unordered(a, b) && val_compare(a, b) >= 0));
             vm_release(&vm->heap, a);
             vm_release(&vm->heap, b);
             break;
